@@ -266,6 +266,24 @@ def remainingLineContent : PM VBytes := do
       advance upTo
       unexpected
 
+/-- The error arm of `remaining_file_content`, first half: if the valid prefix `bytes` contains a
+newline, move the cursor behind the last one (`input.line += skip_lines; advance(advance);
+line_at_offset(0)`); returns what is left of `valid_up_to`. -/
+def fileContentSeek (bytes : VBytes) : PM Nat := do
+  -- `bytes.iter().rev().position(|&b| b == b'\n')`
+  let lastLine := Text.runLen (· != 10) bytes.reverse
+  if lastLine < bytes.length then
+    let adv := bytes.length - lastLine
+    let skipLines := ((bytes.take (adv - 1)).filter (· == 10)).length
+    let lr ← get
+    if lr.line + skipLines > usizeMax then rpanic "line += skip_lines overflow"
+    else
+      set { lr with line := lr.line + skipLines }
+      advance adv
+      lineAtOffset 0
+      pure (bytes.length - adv)
+  else pure bytes.length
+
 /-- `remaining_file_content` (with the `fix:` for F6).  The read-to-end loop
 `while request_byte_at_offset(buf_len()).is_some() {}` is modelled by its effect: the request that
 ends it is the one at offset `rest.length` (see `readToEnd_spec` in `Proof/AigerToken.lean`:
@@ -280,20 +298,8 @@ def remainingFileContent : PM VBytes := do
     let all ← advanceWithBuf len
     pure (all.take (len - 1))
   else
-    let bytes := bytes.take upTo
-    -- `bytes.iter().rev().position(|&b| b == b'\n')`
-    let lastLine := Text.runLen (· != 10) bytes.reverse
-    let validUpTo ←
-      if lastLine < bytes.length then do
-        let adv := bytes.length - lastLine
-        let skipLines := ((bytes.take (adv - 1)).filter (· == 10)).length
-        let lr ← get
-        if lr.line + skipLines > usizeMax then rpanic "line += skip_lines overflow"
-        set { lr with line := lr.line + skipLines }
-        advance adv
-        lineAtOffset 0
-        pure (upTo - adv)
-      else pure upTo
+    -- `valid_up_to` is `err.valid_up_to()` or, for a missing final newline, `bytes.len()`
+    let validUpTo ← fileContentSeek (bytes.take upTo)
     advance validUpTo
     unexpected
 
